@@ -17,7 +17,7 @@ Definition eval (g : graph) (c : cfg) (cs : cbset) (d0 : list node) (tr : list e
   | Some (st, _) =>
       Some (returned st, tag st, present_nodes g (dst st),
             match returned st with
-            | Some true => present_nodes g (copy_result g d0 fuel (c_root c))
+            | Some true => present_nodes g (flat_map (copy_result g d0 fuel) (c_root c :: c_xroots c))
             | _ => []
             end)
   end.
@@ -56,7 +56,7 @@ def _event(tok):
 
 def _goal(case, out):
     f = case.split(" ")
-    if len(f) < 9 or f[2].startswith("x") or int(f[3]) < 0:
+    if len(f) < 9 or f[3].startswith("-"):
         return None
     n, k, mode, root, c0, nodes, d0, trace = f[0], f[1], f[2], f[3], f[4], f[5], f[6], f[7]
     m, _, bits = mode.partition("/")
@@ -86,7 +86,9 @@ def _goal(case, out):
     else:
         return None
     g = "(mkG %s [%s] [%s] [%s] [%s])" % (n, "; ".join(succs), "; ".join(fl), "; ".join(ism), "; ".join(dk))
-    c = "(mkCfg (eff_K defaultConcurrency (%s)%%Z) %s %s %s true %s)" % (k, cmode, root, _b(mount), _nats(c0))
+    roots = root.split("+")
+    c = "(mkCfg (eff_K defaultConcurrency (%s)%%Z) %s %s %s true %s %s)" % (
+        k, cmode, roots[0], _b(mount), _nats(c0), _nats(",".join(roots[1:])))
     cs = "(cs_of [%s])" % "; ".join(_b(ch == "1") for ch in bits)
     return "eval %s %s %s %s [%s] %d = %s" % (g, c, cs, _nats(d0), "; ".join(evs), int(n) + 1, exp)
 
